@@ -2,7 +2,7 @@
 *models* (schema model, document model, world).  Never touches tartiflette objects."""
 import math
 
-from vt import values
+from vt import smodel, values
 from vt.smodel import BUILTIN_SCALARS, named_of
 from vt.values import canon
 from vt.world import ident_of, meta_of
@@ -18,11 +18,12 @@ class Propagate(Exception):
 
 
 class RefError:
-    __slots__ = ("path", "kind", "nodes", "nulled_at", "detail", "argnames")
+    __slots__ = ("path", "kind", "nodes", "nulled_at", "detail", "argnames", "sdl_default")
 
     def __init__(self, path, kind, nodes, detail=None):
         self.path, self.kind, self.nodes, self.detail = tuple(path), kind, nodes, detail
         self.nulled_at = None
+        self.sdl_default = False      # the failing value was (also) taken from a default written in the SDL
 
     def __repr__(self):
         return "RefError(%s %s nulled_at=%s)" % (list(self.path), self.kind, self.nulled_at)
@@ -75,6 +76,51 @@ def serialize_leaf(s, name, v):
         return ("ok", v) if isinstance(v, str) and v in td.values else ("err",)
     r = values.custom_scalar_output(td.impl, v)
     return ("ok", r[1]) if r[0] == "ok" else ("err",)
+
+
+def input_fault_count(s, t, v, faults):
+    """How many gated, faulted input fields hold a non-null value inside the coerced argument value v."""
+    if v is None:
+        return 0
+    if t[0] == "NN":
+        return input_fault_count(s, t[1], v, faults)
+    if t[0] == "L":
+        return sum(input_fault_count(s, t[1], x, faults) for x in (v if isinstance(v, list) else [v]))
+    td = s.types.get(t[1])
+    if td is None or td.kind != "INPUT_OBJECT" or not isinstance(v, dict):
+        return 0
+    n = 0
+    for a in td.fields:
+        if a.name in v and v[a.name] is not None:
+            if "%s.%s" % (td.name, a.name) in faults and any(d[0] == "vtgate" for d in a.directives):
+                n += 1
+            n += input_fault_count(s, a.type, v[a.name], faults)
+    return n
+
+
+def input_fault_hit(s, t, v, faults):
+    """Name of the first gated input field with a non-null value inside the coerced argument value v, if it is faulted."""
+    if v is None:
+        return None
+    if t[0] == "NN":
+        return input_fault_hit(s, t[1], v, faults)
+    if t[0] == "L":
+        for x in (v if isinstance(v, list) else [v]):
+            r = input_fault_hit(s, t[1], x, faults)
+            if r:
+                return r
+        return None
+    td = s.types.get(t[1])
+    if td is None or td.kind != "INPUT_OBJECT" or not isinstance(v, dict):
+        return None
+    for a in td.fields:
+        if a.name in v and v[a.name] is not None:
+            if "%s.%s" % (td.name, a.name) in faults and any(d[0] == "vtgate" for d in a.directives):
+                return "%s.%s" % (td.name, a.name)
+            r = input_fault_hit(s, a.type, v[a.name], faults)
+            if r:
+                return r
+    return None
 
 
 class RefExec:
@@ -132,8 +178,9 @@ class RefExec:
         return grouped
 
     # ------------------------------------------------------------ errors
-    def fail(self, path, kind, nodes, detail=None):
+    def fail(self, path, kind, nodes, detail=None, sdl_default=False):
         e = RefError(path, kind, nodes, detail)
+        e.sdl_default = sdl_default
         self.res.errors.append(e)
         raise Propagate([e])
 
@@ -199,6 +246,37 @@ class RefExec:
             if (f.name, a.name) in self.w.arg_faults and a.name in args and any(d[0] == "vtgate" for d in a.directives):
                 self.fail(path, "raise_tf" if getattr(self.w, "arg_fault_kind", "raise") == "raise_tf" else "args", nodes,
                           "arg:%s.%s" % (f.name, a.name))
+        if self.w.input_faults:
+            given = {n for n, _ in nodes[0].args}
+            first, any_default = None, False
+            for a in f.args:
+                hit = a.name in args and input_fault_hit(self.s, a.type, args[a.name], self.w.input_faults)
+                if not hit:
+                    continue
+                first = first or hit
+                # was a refused value taken from a default of the SDL?  the argument itself omitted, or fewer refused values
+                # once the faulted fields' own defaults are taken away
+                if a.name not in given:
+                    any_default = True
+                    continue
+                touched = []
+                for key in self.w.input_faults:
+                    tn, fn = key.split(".")
+                    for x in (self.s.types[tn].fields if tn in self.s.types else []):
+                        if x.name == fn and x.default is not smodel.NODEF:
+                            touched.append((x, x.default))
+                            x.default = smodel.NODEF
+                try:
+                    r2 = values.coerce_arguments(self.s, f.args, nodes[0].args, self.vars)
+                    n2 = input_fault_count(self.s, a.type, r2[1].get(a.name), self.w.input_faults) if r2[0] != "err" else 0
+                finally:
+                    for x, dflt in touched:
+                        x.default = dflt
+                if n2 < input_fault_count(self.s, a.type, args[a.name], self.w.input_faults):
+                    any_default = True
+            if first:
+                self.fail(path, "raise_tf" if getattr(self.w, "arg_fault_kind", "raise") == "raise_tf" else "args", nodes, "in:%s" % first,
+                          sdl_default=any_default)
         pid = ident_of(obj)
         if f.resolver == "explicit":
             self.res.calls.append(("%s.%s" % (T, f.name), pid, canon(args)))
